@@ -124,7 +124,7 @@ def one(idx, c, out, amap, src):
         pf = os.path.join(out, "patches", name + ".diff")
         open(pf, "w").write(patch)
         shutil.rmtree(lab, ignore_errors=True)
-        checks = amap[f]
+        checks = amap.get(f) or {"ledger/rollback.go": ["C08", "C07"]}.get(f, ["C01"])
         # most specific first: properties anchored in few files before the cross-cutting ones
         spec = {"C18": 0, "C20": 0, "C03": 1, "C17": 1, "C14": 2, "C15": 2, "C13": 2, "C12": 2, "C11": 2, "C10": 2, "C16": 2,
                 "C04": 3, "C02": 3, "C19": 3, "C05": 4, "C09": 4, "C06": 5, "C07": 5, "C01": 6, "C08": 7}
